@@ -98,7 +98,7 @@ func runC04(e *core.Env) error {
 			return err
 		}
 		if rr.Bool() {
-			w.client = jrpc2.New(w.node.URL()).WithMaxReads(2 + rr.Intn(3)).WithPollDuration(time.Hour) // shared CACHING client
+			w.client = jrpc2.New(w.node.URL()+"/a", w.node.URL()+"/b", w.node.URL()+"/c").WithMaxReads(2 + rr.Intn(3)).WithPollDuration(time.Hour) // shared CACHING client, three URLs
 			w.tags["shared-cache"]++
 		}
 		nIG := 2 + rr.Intn(2)
